@@ -42,7 +42,8 @@ def gen_cfg(rng, kind):
         cfg = {"kind": kind, "width": 1 if one else int(rng.integers(1, 12)), "depth": 1 if rng.random() < 0.2 else int(rng.integers(1, 5)),
                "max_key_len": pick(rng, [1, 2, 3, 8, 16, 33])}
         if rng.random() < 0.5:
-            cfg["phi"] = pick(rng, [0.5, 0.013, 1e-6, 0.9999999])
+            w_ = cfg["width"]
+            cfg["phi"] = pick(rng, [0.5, 0.013, 1e-6, 0.9999999, min(1.0, (1.0 / w_) * (1 + 5e-6)), (1.0 / w_) * (1 - 3e-6), 1.0 / w_])
         return cfg
     return {"kind": "hll", "p": int(rng.integers(7, 17)) if rng.random() < 0.3 else int(rng.integers(7, 11)),
             "seed": pick(rng, [0, 1, 2**32, 2**63, 2**63 + 12345, 2**64 - 1, int(rng.integers(0, 2**62))])}
@@ -57,7 +58,8 @@ def gen_case(rng, ctx, kind):
     for g in range(int(rng.integers(1, 5))):
         gens.append({"shm": bool(rng.random() < 0.5), "via_module": bool(kind in state.CMS_KINDS and rng.random() < 0.5),
                      "cont": [ops.gen_op(rng, keys, max_value=maxv, big=0.1) for _ in range(int(rng.integers(1, 10)))]})
-    return {"type": "roundtrip", "cfg": cfg, "history": hist, "n_records": pick(rng, [0, 17, 2**40]), "generations": gens,
+    return {"type": "roundtrip", "cfg": cfg, "history": hist, "n_records": pick(rng, [0, 17, 2**40, 2**53 + 1, 2**63 + 12345, 2**64 - 1]),
+            "n_added_bump": pick(rng, [0, 0, 2**53 + 1, 2**63 + 7]), "generations": gens,
             "strangers": [hx(rand_key(rng, 0, 6)) for _ in range(2)], "draw_seed": int(rng.integers(1, 2**30))}
 
 
@@ -107,6 +109,9 @@ def run_roundtrip(case, ctx, mon):
         peek(orig, n_h)
     if kind != "hll":
         orig.n_added_records[1] = np.uint64(case["n_records"])
+        if case.get("n_added_bump"):
+            # totals of this size are reached by a few dozen self-merges of a saturated sketch; set through the documented attribute
+            orig.n_added_records[0] = np.uint64((int(orig.n_added_records[0]) + case["n_added_bump"]) % 2**64)
     all_ops = list(case["history"])
     for g in case["generations"]:
         all_ops += g["cont"]
